@@ -113,9 +113,9 @@ func main() {
 		obligs = append(obligs, &Oblig{Name: "contracts#parse", Kind: "contract-wellformed", Quick: "error", Result: "error", Solver: "parser", Output: e, Desc: e})
 	}
 	genT := time.Since(start) - loadT
-	to := 20
+	to := 40
 	if *tier == "thorough" {
-		to = 120
+		to = 180
 	}
 	if *timeout > 0 {
 		to = *timeout
